@@ -173,6 +173,19 @@ def run(ctx):
                             f"{f.loc(c)}: {name} takes its edge endpoints from a generator (`{ast.unparse(lp.iter)[:50]}`): "
                             "the set of pairs is not visible at the add_edge call, the symmetry rule is not evaluated"
                         )
+            # endpoints taken as ready-made pairs from a collection (`for u, v in pairs: add_edge(u, v)`): whether
+            # every pair has its reverse is a fact about that collection - unless it is one of the
+            # enumerators known to yield each unordered pair once
+            for lp in _enclosing_loops(f, c):
+                tg = lp.target
+                if isinstance(tg, ast.Tuple) and len(tg.elts) == 2 and [ast.unparse(e_) for e_ in tg.elts] == [ast.unparse(c.args[0]), ast.unparse(c.args[1])]:
+                    itx = ctx.norm.xexpr(f, lp.iter)
+                    one_way = isinstance(itx, ast.Call) and (dotted(itx.func) or "").split(".")[-1] in ("combinations", "pairwise", "zip", "product", "permutations")
+                    if not one_way:
+                        raise AnalysisError(
+                            f"{f.loc(c)}: {name} takes ready-made (tail, head) pairs from `{ast.unparse(lp.iter)[:50]}`; whether that "
+                            "collection holds every pair in both directions is not visible at the add_edge call, the symmetry rule is not evaluated"
+                        )
             rev = [x for x in pairs if x[0] == b and x[1] == a]
             why = "with different attributes" if rev else "at all"
             chk.violation(
